@@ -26,7 +26,7 @@ type inputSpec struct {
 }
 
 type dstSpec struct {
-	Mode string `json:"mode"` // nil | zero | small | large | alias
+	Mode string `json:"mode"` // nil | zero | small (Cap bytes, less than needed) | large (Cap bytes: more than, or within one byte of, what is needed) | alias
 	Cap  int    `json:"cap,omitempty"`
 }
 
@@ -44,11 +44,19 @@ type op struct {
 	EncDst dstSpec     `json:"enc_dst"`
 	DecDst dstSpec     `json:"dec_dst"`
 	Bad    corruptSpec `json:"bad,omitempty"`
+	// Src: what the caller does with the SOURCE buffer of a call once the call
+	// has returned (the buffers belong to the caller, the results must not
+	// refer to them): "" keeps it untouched | "overwrite" fills it with other
+	// bytes at once | "reuse" overwrites the input of Encode and hands the
+	// buffer that held the encoded form to the next Encode as its destination
+	// (buf, _ = codec.Encode(buf[:0], next)).
+	Src string `json:"src,omitempty"`
 }
 
 type history struct {
 	Codec      string `json:"codec"`
 	Goroutines int    `json:"goroutines,omitempty"` // > 0: every goroutine runs Ops (rotated) on the shared codec value at once
+	Procs      int    `json:"procs,omitempty"`      // > 0: GOMAXPROCS of the child (fewer Ps than goroutines: calls are descheduled half way and resumed after calls of other goroutines ran on the same P)
 	Ops        []op   `json:"ops"`
 	DeadlineS  int    `json:"deadline_s,omitempty"` // per-call deadline in the child (default 20 s; shrunk hang replays use 5 s)
 }
@@ -107,6 +115,24 @@ func (s inputSpec) bytes() []byte {
 		}
 	}
 	return b
+}
+
+// nextInput: the input that follows s in a "reuse" call; other bytes than s
+// (whatever the generator), 3/4 to 5/4 of its size.
+func (s inputSpec) nextInput() inputSpec {
+	n := inputSpec{Gen: s.Gen, Size: s.Size + (int(s.Seed%3)-1)*s.Size/4, Seed: s.Seed + 1}
+	if n.Gen == "zero" || n.Gen == "ramp" {
+		n.Gen = "mixed"
+	}
+	return n
+}
+
+// scribble changes every byte of a buffer the caller owns, up to its capacity.
+func scribble(b []byte) {
+	b = b[:cap(b)]
+	for i := range b {
+		b[i] = ^b[i]
+	}
 }
 
 // make builds the destination buffer; prev is the slice returned by an earlier call (alias mode).
